@@ -1,19 +1,47 @@
 #!/bin/bash
-# usage: lib/seeded_sweep.sh [pattern] — run the quick check of its property against every seeded change
-# (seeded/<id>/patch.diff + meta.json "property"); writes build/seeded_sweep.tsv:  id  property  verdict  exit  first line
+# usage: lib/seeded_sweep.sh [pattern ...] — run the quick check of its property against every seeded change
+# (seeded/<id>/patch.diff + meta.json "property" / "breaks"); writes build/seeded_sweep.tsv (or $SWEEP_OUT):
+#   id  property  verdict  exit  first line
+# A change whose meta.json names SEVERAL properties (a list, or "C09,C10") is run under every one of them: one line per
+# property.  verdict: CAUGHT (exit 1 with a VIOLATION line) | missed | NOAPPLY (the patch does not apply to the tree)
+# | NOPROP (no property named) | EQUIV (not caught, and meta.json records "equivalent": true with the argument why no
+# input can tell the change from the original; such a change that IS caught is reported CAUGHT — look at it).
 cd "$(dirname "$0")/.."
-pat=${1:-*}
-out=build/seeded_sweep.tsv; : > $out
+[ $# -gt 0 ] || set -- '*'
+out=${SWEEP_OUT:-build/seeded_sweep.tsv}; : > $out
+for pat in "$@"; do
 for d in seeded/$pat/; do
   id=$(basename $d)
   [ -f $d/patch.diff ] || continue
-  prop=$(/usr/bin/python3 -c "import json,sys; m=json.load(open('$d/meta.json')); p=m.get('property') or m.get('breaks') or ''; print(p if isinstance(p,str) else p[0])" 2>/dev/null)
-  case "$prop" in C[0-9][0-9]) ;; *) prop=$(echo $id | grep -o -i 'c[0-9][0-9]' | head -1 | tr a-z A-Z);; esac
-  [ -n "$prop" ] || { echo -e "$id\t?\tNOPROP" >> $out; continue; }
-  o=$(lib/seedtest.sh $d/patch.diff $prop quick 2>&1)
-  rc=$(echo "$o" | grep -o 'exit=[0-9]*' | tail -1)
-  first=$(grep -E '^(VIOLATION|OK)' build/seedtest.out | head -1 | cut -c1-100)
-  if echo "$o" | grep -q 'does not apply'; then v=NOAPPLY; elif [ "$rc" = "exit=1" ] && grep -q '^VIOLATION' build/seedtest.out; then v=CAUGHT; else v=missed; fi
-  echo -e "$id\t$prop\t$v\t$rc\t$first" >> $out
+  grep -q "^$id	" $out && continue   # matched by an earlier pattern
+  meta=$(/usr/bin/python3 - "$d/meta.json" <<'EOF' 2>/dev/null
+import json, re, sys
+m = json.load(open(sys.argv[1]))
+p = m.get('property') or m.get('breaks') or ''
+if not isinstance(p, str):
+    p = ' '.join(str(x) for x in p)
+props = []
+for x in re.findall(r'C[0-9][0-9]', p):      # "XC03" (an older name of the struct-mapped run of C03) reads as C03
+    if x not in props:
+        props.append(x)
+print(('1' if m.get('equivalent') is True else '0') + ' ' + ' '.join(props))
+EOF
+)
+  equiv=${meta%% *}; props=${meta#* }
+  [ -n "$meta" ] || { equiv=0; props=; }
+  [ -n "$props" ] || props=$(echo $id | grep -o -i 'c[0-9][0-9]' | head -1 | tr a-z A-Z)
+  [ -n "$props" ] || { echo -e "$id\t?\tNOPROP" >> $out; continue; }
+  for prop in $props; do
+    : > build/seedtest.out
+    o=$(lib/seedtest.sh $d/patch.diff $prop quick 2>&1)
+    rc=$(echo "$o" | grep -o 'exit=[0-9]*' | tail -1)
+    first=$(grep -E '^(VIOLATION|OK)' build/seedtest.out | head -1 | cut -c1-100)
+    if echo "$o" | grep -q 'does not apply'; then v=NOAPPLY; rc=; first=
+    elif [ "$rc" = "exit=1" ] && grep -q '^VIOLATION' build/seedtest.out; then v=CAUGHT
+    elif [ "$equiv" = 1 ]; then v=EQUIV
+    else v=missed; fi
+    echo -e "$id\t$prop\t$v\t$rc\t$first" >> $out
+  done
 done
-echo "sweep done: $(grep -c CAUGHT $out) caught, $(grep -c missed $out) missed, $(grep -c NOAPPLY $out) stale"
+done
+echo "sweep done: $(grep -c '	CAUGHT	' $out) caught, $(grep -c '	missed	' $out) missed, $(grep -c '	EQUIV	' $out) equivalent, $(grep -c '	NOAPPLY' $out) stale, $(grep -c '	NOPROP' $out) without a property"
